@@ -44,7 +44,9 @@ def case_strategy():
         mixed = st.tuples(st.sampled_from([["cls", n] for n in knames] + [["cls", "str"]]),
                           st.sampled_from([["lit", [0]], ["lit", [0, 1]], ["lit", ["a"]], ["startswith", "a"]])).map(
             lambda t: ["union", [t[0], t[1]]])
-        samebound = st.sampled_from([["dep", ["cls", "int"], "pos"], ["dep", ["cls", "int"], "even"],
+        samebound = st.sampled_from([["listof", ["cls", "int"]], ["seqof", ["cls", "int"]], ["dictof", ["cls", "str"], ["cls", "int"]],
+                                     ["mapof", ["cls", "str"], ["cls", "int"]],
+                                     ["dep", ["cls", "int"], "pos"], ["dep", ["cls", "int"], "even"],
                                      ["dep", ["cls", "int"], "big"], ["lit", [0]], ["lit", [1, 2]], ["lit", [2, 3]]])
         ann = G.satisfiable(st.one_of(G.any_ann(knames, p_dep=0.3), G.any_ann(knames, p_dep=0.3), overlapping,
                                       samebound, mixed), fit)
